@@ -56,6 +56,17 @@ TYPES = {
     "dict": ("Dict[str, int]", [("{'a': 1}", '{"a":1}', {"a": 1}), ("{}", "{}", {})], ["{'k': 2}", "{'j': 3}"]),
 }
 TYPE_ORDER = ["int", "str", "float", "bool", "optint", "list", "enum", "dict"]
+# third value of a type (alt = 2): the "zero" value - valid, but falsy / empty (0, '', 0.0, False, [], {}); a type
+# without one (enum) keeps its ordinary value
+ZERO = {
+    "int": ("0", "0", 0),
+    "str": ("''", "", ""),
+    "float": ("0.0", "0", 0),
+    "bool": ("False", "false", False),
+    "optint": ("0", "0", 0),
+    "list": ("[]", "[]", []),
+    "dict": ("{}", "{}", {}),
+}
 
 # The second alphabet ("X types"): Optional[...] of parametrized generics / str / enum / a Union, a Tuple, and
 # class-typed parameters (a dataclass, Optional[dataclass], a class given by class_path, Optional[class]).  They are
@@ -77,6 +88,12 @@ _CLS1 = (
     {"class_path": "@MOD.Model", "init_args": {"size": 2}},
 )
 _NULL = ("None", "null", None)
+# values that contain characters of the command line syntax itself ('=' of --name=value, '.' of --name.key): a plain
+# str, the items of a Dict[str, str] given one by one as --name.key=value, the str field of a dataclass as --name.field=value
+_SD0 = ("{'u': 'k=v', 'w': 'x=='}", [[".u", "k=v"], [".w", "x=="]], {"u": "k=v", "w": "x=="})
+_SD1 = ("{'u': 'a.b=c'}", '{"u":"a.b=c"}', {"u": "a.b=c"})
+_NOTE0 = ("Note(text='k=v', n=2)", [[".text", "k=v"], [".n", "2"]], {"text": "k=v", "n": 2})
+_NOTE1 = ("Note(text='x==', n=0)", [["", '{"text":"x==","n":0}']], {"text": "x==", "n": 0})
 XTYPES = {
     "optstr": ("Optional[str]", [("'ab'", "ab", "ab"), _NULL], ["None", "'d2'"]),
     "optlist": ("Optional[List[int]]", [("[1, 2]", "[1,2]", [1, 2]), _NULL], ["None", "[4, 5]"]),
@@ -89,12 +106,17 @@ XTYPES = {
     "optdc": ("Optional[Opt]", [_OPT0, _NULL], ["None", "Opt(lr=0.25, steps=2)"]),
     "cls": ("Model", [_CLS0, _CLS1], ["Model(size=8)", "BigModel(size=9)"]),
     "optcls": ("Optional[Model]", [_CLS0, _NULL], ["None", "Model(size=8)"]),
+    "eqstr": ("str", [("'k=v'", "k=v", "k=v"), ("'a.b=c'", "a.b=c", "a.b=c")], ["'d=1'", "'e=='"]),
+    # the defaults have no key besides u / w: whether items given one by one are merged into the default is not judged
+    "sdict": ("Dict[str, str]", [_SD0, _SD1], ["{'u': 'o=1'}", "{'u': 'p', 'w': 'q=2'}"]),
+    "sdc": ("Note", [_NOTE0, _NOTE1], ["Note(text='t=0', n=3)", "Note(text='q', n=4)"]),
 }
 X_ORDER = list(XTYPES)
 TYPES.update(XTYPES)
 OPTIONAL = {"optint"} | {t for t in XTYPES if t.startswith("opt")}  # omitted without default -> None
-NEVER_POSITIONAL = {"dc"}  # a dataclass-typed parameter is a group of options --name.field (and --name = whole value)
-MUTABLE = {"list", "dict", "optlist", "optdict", "dc", "optdc"}  # dataclass form: default through default_factory
+NEVER_POSITIONAL = {"dc", "sdc"}  # a dataclass-typed parameter is a group of options --name.field (and --name = whole value)
+MUTABLE = {"list", "dict", "optlist", "optdict", "dc", "optdc", "sdict", "sdc"}
+CLASS_TYPED = {"dc", "optdc", "cls", "optcls", "sdc"}  # dataclass form: default through default_factory
 
 HEADER = '''\
 import dataclasses
@@ -145,6 +167,12 @@ class Model:
 
 class BigModel(Model):
     pass
+
+
+@dataclasses.dataclass
+class Note:
+    text: str
+    n: int = 1
 
 '''
 
@@ -205,7 +233,7 @@ def is_required(param):
 
 
 def uses_class_types(program):
-    return any(t in ("dc", "optdc", "cls", "optcls") for leaf in leaves(program) for st in leaf for t, _, _ in st["sig"])
+    return any(t in CLASS_TYPED for leaf in leaves(program) for st in leaf for t, _, _ in st["sig"])
 
 
 # ---------------------------------------------------------------------------------------------------
@@ -217,7 +245,43 @@ INHERIT = ("", "meth", "init", "all")  # what the class given to auto_cli inheri
 DECOY_M2 = [["int", 1, "P"], ["str", 1, "K"]]  # second method of two-method classes: m2(self, p0: int = .., *, z: str = ..)
 
 
+# The parameter-name axis: names the library itself uses (keys that auto_cli adds to or pops from the parsed
+# namespace, built-in options, attribute / method names of Namespace), grouped by what they could clash with; the
+# last group holds neutral control names.  `program["pname"] = {"at": "leaf" | "init" | "meth", "i": index, "name": n}`
+# gives ONE parameter of the enumerated component that name.
+NAME_CLASSES = {
+    "subcommand": ["subcommand"],
+    "config": ["config"],
+    "like-a-built-in-option": ["help", "print_config"],
+    "like-Namespace-attribute": ["items", "values", "keys", "get", "update", "clone", "pop", "as_dict"],
+    "other-library-name": ["cfg"],
+    "neutral-control": ["alpha", "beta_two"],
+}
+NAMES = [n for names in NAME_CLASSES.values() for n in names]
+NAME_CLASS = {n: c for c, names in NAME_CLASSES.items() for n in names}
+NAME_TYPES = ["int", "str", "dict"]
+
+
 def leaves(program):
+    """`_leaves` with the renamed parameter of the parameter-name axis (program["pname"]) applied."""
+    out = _leaves(program)
+    pn = program.get("pname")
+    if pn:
+        form = program["form"]
+        for li, leaf in enumerate(out):
+            for st in leaf:
+                if form in ("func", "dict", "plainclass"):
+                    hit = st["callee"] is not None
+                elif form == "list":
+                    hit = st["callee"] == "fa"
+                else:  # class
+                    hit = st["callee"] == ("K.__init__" if pn["at"] == "init" else "K.m1")
+                if hit and st["sig"]:
+                    st["names"] = [pn["name"] if i == pn["i"] else n for i, n in enumerate(st["names"])]
+    return out
+
+
+def _leaves(program):
     """The selectable leaves of a program; each leaf is a list of *stages* (parser levels along the path).
 
     stage = {"token": sub-command token selecting this level (None for the root), "sig", "names", "role",
@@ -249,6 +313,12 @@ def leaves(program):
     if form == "dict":
         sig = program["sig"]
         g = lambda tok: st(tok, [], 0, None, None)  # noqa: E731
+        if program.get("pname"):  # name axis: the three leaves keep the type of the named parameter
+            return [
+                [g(None), st("top", sig, 0, "fa", "token")],
+                [g(None), g("grp"), st("inner", sig, 1, "fb", "token")],
+                [g(None), g("grp"), g("deep"), st("leaf", sig, 0, "fc", "token")],
+            ]
         return [
             [g(None), st("top", sig, 0, "fa", "token")],
             [g(None), g("grp"), st("inner", rotate(sig, 1), 1, "fb", "token")],
@@ -282,6 +352,10 @@ def default_src(param, i, role):
 
 
 def given(param, i, role, alt):
+    if alt == 2:  # the zero value of the type (falsy / empty), where it has one
+        if param[0] in ZERO:
+            return ZERO[param[0]]
+        alt = 0
     return TYPES[param[0]][1][(i + role + alt) % 2]
 
 
@@ -436,11 +510,28 @@ def build(stages, inp, all_leaves=None):
     for si, stage in enumerate(stages):
         sig, names, role = stage["sig"], stage["names"], stage["role"]
         opts, poss, cfgd, cfgd2, kwargs = [], [], {}, {}, {}
+        extras = []  # channel "p": values of options written as extra positionals (parse_optionals_as_positionals)
+        extras_open = True  # every option of this level so far is given as an extra positional
         prefix_open = True  # every positional of this level so far is on the command line
         pos_from_cfg = pos_missing = False
         for i, (p, n) in enumerate(zip(sig, names)):
             ch, alt = assign[si][i]
             pos = is_positional(p, as_pos)
+            if ch == "p":
+                # documented rule of the setting: extra positionals go, in order, to the options of the parser in the
+                # order they were added; only parsers without sub-commands take them.  So: the options given this way
+                # are a prefix of the level's options, the level is the last one, its token is on the command line,
+                # and none of its parameters expands into several options (dataclass) or is skipped (subclass types)
+                if not inp.get("optpos") or pos or not extras_open or si != len(stages) - 1 or si >= cut:
+                    return None
+                if any(q[0] in CLASS_TYPED for q in sig):
+                    return None
+                src, tok, cval = given(p, i, role, alt)
+                kwargs[n] = src
+                extras.append(tok if isinstance(tok, str) else json.dumps(cval))
+                continue
+            if not pos:
+                extras_open = False
             if ch == "-":
                 if is_required(p):
                     missing.append([si, i])
@@ -460,7 +551,7 @@ def build(stages, inp, all_leaves=None):
                 if pos:
                     if not prefix_open:
                         return None  # a later positional on the command line while an earlier one is not
-                    poss.append(tok)
+                    poss.append(tok if isinstance(tok, str) else json.dumps(cval))  # item-wise value: one JSON token
                 else:
                     for suffix, t in [["", tok]] if isinstance(tok, str) else tok:  # dataclass: one option per field
                         opts += [f"--{n}{suffix}={t}"] if style == "eq" else [f"--{n}{suffix}", t]
@@ -474,6 +565,10 @@ def build(stages, inp, all_leaves=None):
                 if pos:
                     prefix_open = False
                     pos_from_cfg = True
+        if extras:
+            if pos_from_cfg or pos_missing:
+                return None  # the first extra positional would be taken for the positional that is not on the command line
+            poss = poss + extras
         per_stage.append((opts, poss, cfgd, pos_from_cfg, pos_missing, cfgd2))
         if stage["callee"]:
             calls.append([stage["callee"], kwargs, stage.get("mkind")])
@@ -577,8 +672,14 @@ def _flat(stages):
     return [(si, i) for si, s in enumerate(stages) for i in range(len(s["sig"]))]
 
 
-def _inp(sel, assign, as_pos=True, layout="ol", style="eq", cfg="top", cfgpos="first", sib=None, selcfg=0, cfg2=None):
+def _inp(sel, assign, as_pos=True, layout="ol", style="eq", cfg="top", cfgpos="first", sib=None, selcfg=0, cfg2=None, optpos=0, hist=None, relcfg=0):
     out = {"sel": sel, "as_pos": as_pos, "assign": assign, "layout": layout, "style": style, "cfg": cfg}
+    if optpos:
+        out["optpos"] = 1  # the call runs under set_parsing_settings(parse_optionals_as_positionals=True)
+    if hist is not None:
+        out["hist"] = hist  # an earlier auto_cli call of the same process (see history_inputs)
+    if relcfg:
+        out["relcfg"] = 1  # --config paths are written relative to the working directory
     if cfg2 is not None:
         out["cfg2"] = cfg2  # parser level at which the second --config (parameters with channel "d") is given
     if selcfg:
@@ -762,6 +863,65 @@ def twocfg_inputs(sel, stages):
                 yield _inp(sel, req, cfg2=lvl)
 
 
+def zero_inputs(sel, stages):
+    """Every parameter given its zero value (0, '', 0.0, false, [], {} - valid but falsy / empty): all on the command
+    line (--name=value and --name value, as_positional True / False), all in the config, and one parameter at a time
+    on the command line with the others at their ordinary value."""
+    yield _inp(sel, _all(stages, "a", 2))
+    yield _inp(sel, _all(stages, "a", 2), layout="of", style="sp")
+    yield _inp(sel, _all(stages, "a", 2), as_pos=False)
+    yield _inp(sel, _all(stages, "c", 2))
+    flat = _flat(stages)
+    if len(flat) > 1:
+        for si, i in flat:
+            a = _all(stages, "a")
+            a[si][i] = ["a", 2]
+            yield _inp(sel, a)
+
+
+def optpos_inputs(sel, stages):
+    """The documented parsing setting parse_optionals_as_positionals=True: extra positionals are, in order, the
+    values of the options of the (leaf) parser.  For as_positional True / False: the ordinary inputs (all on the
+    command line with ordinary and zero values, all in the config) must not be affected by the setting; then for
+    every k = 1 .. number of options of the leaf level the first k options given as extra positionals x the other
+    options omitted (ordinary / zero values of every parameter of the level, also of the real positionals) / given
+    by name (zero values) / in the config (ordinary values); once more with the other values and the named options first (as_positional=False, where
+    the required parameters are options too and can be given this way: the others omitted with ordinary values / by
+    name with zero values)."""
+    last = len(stages) - 1
+    for as_pos in (True, False):
+        opt_idx = [i for i, p in enumerate(stages[last]["sig"]) if not is_positional(p, as_pos)]
+        for alt in (0, 2):
+            yield _inp(sel, _all(stages, "a", alt), as_pos=as_pos, optpos=1)
+        yield _inp(sel, _all(stages, "c"), as_pos=as_pos, optpos=1)
+        for k in range(1, len(opt_idx) + 1):
+            variants = [("-", 0, "ol"), ("-", 2, "ol"), ("a", 2, "ol"), ("c", 0, "ol"), ("a", 1, "of")] if as_pos else [("-", 0, "ol"), ("a", 2, "ol")]
+            for rest, alt, layout in variants:
+                a = _all(stages, "a", alt)
+                for j, i in enumerate(opt_idx):
+                    a[last][i] = ["p" if j < k else rest, alt]
+                yield _inp(sel, a, as_pos=as_pos, layout=layout, optpos=1)
+
+
+HISTORY_FIRST = ("valid", "missing", "rejected-config", "mistyped-config")
+
+
+def history_inputs(sel, stages):
+    """Two auto_cli calls in one process; the second one is judged.  The process runs in a directory A; a directory
+    B next to it holds same-named config files with other values.  First call: valid / a required parameter missing
+    / a config file that is rejected (rejected-config: a key nobody accepts; mistyped-config: a value that the type of
+    the first parameter refuses), its --config file in A or in B, written as a relative
+    or an absolute path.  Second call: everything in the config, the path relative to A or absolute."""
+    for first in HISTORY_FIRST:
+        if first == "missing" and not _required(stages):
+            continue
+        for where in ("cwd", "other"):
+            for fstyle in ("rel", "abs"):
+                for sstyle in (1, 0):
+                    hist = {"first": first, "dir": where, "path": fstyle}
+                    yield _inp(sel, _all(stages, "c"), as_pos=False, hist=hist, relcfg=sstyle)
+
+
 def product_inputs(sel, stages):
     """{omitted, argv, config}^parameters (config at the top level and, for staged forms, at the component's own
     level) plus each required parameter omitted; none of the variation axes of the full plan."""
@@ -793,6 +953,15 @@ def decoy1_inputs(sel, stages):
     yield _inp(sel, _all(stages, "a"))
 
 
+def names_inputs(sel, stages):
+    """Parameter-name axis: every parameter on the command line (as_positional True / False), every parameter in the
+    config, only the required ones (the others keep their defaults); command lines that coincide are run once."""
+    yield _inp(sel, _all(stages, "a"))
+    yield _inp(sel, _all(stages, "c"))
+    yield _inp(sel, _minimal(stages))
+    yield _inp(sel, _all(stages, "a"), as_pos=False)
+
+
 def no_inputs(sel, stages):
     return iter(())
 
@@ -807,7 +976,7 @@ def inputs(program, plan):
     ":first1" (the same, and only for type vectors with at most one non-int type), ":two" (`twocfg_inputs`) or
     ":sel" (additionally `selcfg_inputs`: sub-commands selected through the config, with and without sibling sections)."""
     plan, *opts = plan.split(":")
-    opt = next((o for o in opts if o in ("deep", "first", "first1")), "")
+    opt = next((o for o in opts if o in ("deep", "first", "first1", "first2")), "")
     lv = leaves(program)
     form = program["form"]
     for sel, stages in enumerate(lv):
@@ -825,15 +994,28 @@ def inputs(program, plan):
             yield from full_inputs(sel, stages, len(lv))
         elif main and plan == "lean3" and opt == "first":
             yield from lean3_inputs(sel, stages, first_only=True)
-        elif main and plan == "lean3" and opt == "first1":
-            # as "first", but the omission only for type vectors that differ from `int` in at most one position
-            plain = sum(p[0] != "int" for st in stages for p in st["sig"]) <= 1
-            for inp in lean3_inputs(sel, stages, first_only=True):
-                if plain or not any(c[0] == "-" and is_required(p) for row, st in zip(inp["assign"], stages) for c, p in zip(row, st["sig"])):
-                    yield inp
+        elif main and plan == "lean3" and opt in ("first1", "first2"):
+            # as "first", but the omission only for type vectors that differ from `int` in at most one position;
+            # "first2": moreover the input "required ones in the config, nothing else" (the second of the plan) only for
+            # type vectors that differ from `int` in at most two positions
+            nonint = sum(p[0] != "int" for st in stages for p in st["sig"])
+            for k, inp in enumerate(lean3_inputs(sel, stages, first_only=True)):
+                if nonint > 1 and any(c[0] == "-" and is_required(p) for row, st in zip(inp["assign"], stages) for c, p in zip(row, st["sig"])):
+                    continue
+                if opt == "first2" and k == 1 and nonint > 2:
+                    continue
+                yield inp
         else:
             yield from PLANS[plan if main else ("decoy" if plan == "full" else "decoy1")](sel, stages)
         if "sel" in opts:
             yield from selcfg_inputs(sel, stages, len(lv), slim=not main)
+        if "zero" in opts and main:
+            yield from zero_inputs(sel, stages)
+        if "optpos" in opts and main:
+            yield from optpos_inputs(sel, stages)
+        if "hist" in opts and main:
+            yield from history_inputs(sel, stages)
+        if "names" in opts and main:
+            yield from names_inputs(sel, stages)
         if "two" in opts and main and not (form == "dict" and opt == "deep" and sel != len(lv) - 1):
             yield from twocfg_inputs(sel, stages)
